@@ -108,6 +108,8 @@ class World:
                     kw["clone"] = wrap["clone"]
                 gn = gn.map_over(*wrap["mapOver"], **kw)
             g = Graph([gn], name="outer")
+            for j in range(wrap.get("plain", 0)):
+                g = Graph([g.as_node(name=f"lvl{j}")], name=f"outer{j}")
         self.graphs[gkey] = g
         return g
 
@@ -194,6 +196,10 @@ class C18(Prop):
                         shape["wrap"]["clone"] = clone
                 elif wrap_kind == "mapped":
                     shape["wrap"] = {}
+                if "wrap" in shape and rng.random() < 0.4:
+                    # further PLAIN nesting levels around the (mapped) wrapper: transparent, every level leaves the inner graph's own
+                    # defaults and bindings to the inner run
+                    shape["wrap"]["plain"] = rng.choice([1, 1, 2])
                 shapes.append(shape)
             # an identical-source twin whose default is immutable / mutable (definition hashes coincide)
             if rng.random() < 0.25 and not wrap_kind:
